@@ -45,44 +45,45 @@ type deferred struct {
 }
 
 type Exec struct {
-	env       *Env
-	tb        *TermBuilder
-	sol       *Solver
-	solOpen   bool
-	prefix    []uint64
-	taken     []uint64
-	witness   Witness
-	pending   []workItem
-	pc        []*Term
-	known     map[int]bool
-	globals   map[*ssa.Global]*Val
-	initDone  map[*ssa.Package]bool
-	instrs    int64
-	fuel      int64
-	depth     int
-	nsym      int
-	inputs    []inputRec
-	onceDone  map[*Val]bool
-	pools     map[*Val][]Val
-	locks     map[*Val]int
-	lockDisc  bool            // lock discipline checking (lockdisc.go)
-	guardOf   map[*Val]*Val   // guarded field address -> its mutex
-	guardObj  map[*gomap]*Val // map held by a guarded field -> its mutex
-	lockSeen  map[string]bool
-	guardType map[*Val]types.Type
-	run       *Run
-	res       *PathResult
-	nqueries  int
-	mergeOff  bool
-	fnHits    map[*ssa.Function]int
-	opaqueN   int
-	ptrIDs    map[*Val]int
-	stack     []*ssa.Function
-	trace     string
-	mapMode   int
-	mapSite   int
-	mapSites  int
-	obs       []obsRec
+	env          *Env
+	tb           *TermBuilder
+	sol          *Solver
+	solOpen      bool
+	prefix       []uint64
+	taken        []uint64
+	witness      Witness
+	pending      []workItem
+	pc           []*Term
+	known        map[int]bool
+	globals      map[*ssa.Global]*Val
+	initDone     map[*ssa.Package]bool
+	instrs       int64
+	fuel         int64
+	depth        int
+	nsym         int
+	inputs       []inputRec
+	onceDone     map[*Val]bool
+	pools        map[*Val][]Val
+	locks        map[*Val]int
+	lockDisc     bool            // lock discipline checking (lockdisc.go)
+	guardOf      map[*Val]*Val   // guarded field address -> its mutex
+	guardObj     map[*gomap]*Val // map held by a guarded field -> its mutex
+	lockSeen     map[string]bool
+	canInterpret func(string) bool // set per intrinsic call: may the current function be run from SSA instead
+	guardType    map[*Val]types.Type
+	run          *Run
+	res          *PathResult
+	nqueries     int
+	mergeOff     bool
+	fnHits       map[*ssa.Function]int
+	opaqueN      int
+	ptrIDs       map[*Val]int
+	stack        []*ssa.Function
+	trace        string
+	mapMode      int
+	mapSite      int
+	mapSites     int
+	obs          []obsRec
 }
 
 func (ex *Exec) fresh(kind string, w int) *Term {
